@@ -234,6 +234,7 @@ pub fn run_batch(tables: &Tables, stmt: &Statement, lines: &[&str]) -> Outcome<T
 pub fn run_incremental(tables: &Tables, stmt: &Statement, lines: &[&str]) -> Outcome<Vec<StepOut>> {
     let r = catch(|| -> Result<Vec<StepOut>, String> {
         let mut engine = ExecutionEngine::new(tables, stmt);
+        engine.execute_joined_table(Arc::new(AtomicBool::new(true))).map_err(|e| format!("{}", e))?;
         let config = ExecutionConfig::default();
         let mut outs = Vec::new();
         for l in lines {
